@@ -109,7 +109,6 @@ func VerifC16_SpendWindow() {
 				mUsed.SetInt64(0)
 				mReset = acc.SpendReset
 				periodTotal.SetInt64(0)
-				verifAssert(mReset == t || mReset == reset0 || !expired || true, "period bookkeeping")
 			}
 		}
 	}
